@@ -195,7 +195,7 @@ def run_case(case, tier):
     if any(r.raw is None and not (-999 <= r.resnum <= 9999) for r in new):
         return util.finish(case, viol, counts, classes, False, {"skipped": "number out of field"}, inconclusive="field")
     ta, tb = pdbio.dump(recs), pdbio.dump(new)
-    opts = ["-d"] if rng.random() < 0.15 else []
+    opts = ["-d"] if rng.random() < 0.15 else util.neutral_options(rng, families=("display", "grid", "protonation", "keep"), classes=classes)
     ra = obs.run_single(ta, opts)
     rb = obs.run_single(tb, opts)
     counts["pipeline_runs"] = 2
